@@ -106,7 +106,8 @@ def classify(res):
     # obligations refuted by the solver (a model was found) next to queries that merely ran out of resources: the refuted ones stand,
     # the resource-limited ones add nothing (reported by the caller as part of the output, not as failures)
     if any(e['semantic'] for e in errs) and all(e['semantic'] or e.get('limit') for e in errs):
-        return 'fail', [e for e in errs if e['semantic']]
+        # the resource-limited entries are kept (flagged `limit`): the caller reports every obligation of THAT function that was not refuted as undecided
+        return 'fail', errs
     if not errs:
         return 'undecided', [dict(message='verus reported failure without diagnostics: ' + res['stderr'][-2000:], lines=[], semantic=False)]
     return 'undecided', errs
